@@ -22,7 +22,7 @@ chk.extra['rule'] = ('toy source/target force fields (1-3 residue types; one-to-
                      '>= 1 bond between placements, or an overlap / unmapped / spawned feature; distinct = distinct '
                      'protocol line')
 chk.lean(['VermouthProps.C01', 'VermouthProps.C01_Attr', 'VermouthProps.C01_ModAttr', 'VermouthProps.C01_Events',
-          'VermouthProps.C01_AttrLink'], 'driver_c01')
+          'VermouthProps.C01_AttrLink', 'VermouthProps.C01_Pred'], 'driver_c01')
 
 import networkx as nx
 import vermouth
